@@ -51,15 +51,15 @@ def Inv (s : St) : Prop :=
 instance (s : St) : Decidable (Inv s) := by unfold Inv; infer_instance
 
 /-- Hypothesis on one operation in its pre-state: the operation does not assign a bound across
-    the other bound (open finding D09b), and does not reset the maximum to the default below the
-    current piece length (open finding D09c).  `None` assigns the class default. -/
+    the other bound (open finding D09b).  `None` assigns the class default (for the minimum that
+    is the smallest legal value, which can never lie above a legal maximum: no clause). -/
 def OpOk (s : St) : Op → Prop
   | .setMin (some x) => divisible x = true → x ≤ (s.pmax : Int)
   | .setMax (some x) => divisible x = true → (s.pmin : Int) ≤ x
-  | .setMax none => s.pmin ≤ defaultMax ∧ (match s.pl with | some pl => pl ≤ defaultMax | none => True)
+  | .setMax none => s.pmin ≤ defaultMax
   | _ => True
 instance (s : St) (op : Op) : Decidable (OpOk s op) := by
-  unfold OpOk; split <;> first | infer_instance | (split <;> infer_instance)
+  unfold OpOk; split <;> infer_instance
 
 /-- every operation of a history satisfies `OpOk` in the state it is applied to -/
 def AllOk (env : Env) : St → List Op → Prop
